@@ -21,7 +21,8 @@ type SNode struct {
 	Name      string       `json:"name"`
 	Presence  bool         `json:"presence"`
 	Typ       string       `json:"typ"` // string int8 empty, "-" for interior nodes
-	Key       string       `json:"key"`
+	Key       string       `json:"key"`  // key leaf of a single-key list
+	Keys      []string     `json:"keys"` // the key statement (names in its order); empty in older records: Key alone
 	Mandatory bool         `json:"mandatory"`
 	Def       string       `json:"def"` // leaf default / default case, "" = none
 	Min       int          `json:"min"`
@@ -40,7 +41,7 @@ func renderNode(b *strings.Builder, n SNode, ind string) {
 	w := func(f string, a ...interface{}) { fmt.Fprintf(b, ind+f+"\n", a...) }
 	typ := func() {
 		switch n.Typ {
-		case "string", "int8", "empty", "boolean":
+		case "string", "int8", "empty", "boolean": // boolean: key leaves of the multi-key path shapes
 			w("  type %s;", n.Typ)
 		case "tstring", "tint8", "tempty": // the same types reached through a typedef of the module
 			w("  type %s;", n.Typ)
@@ -70,7 +71,7 @@ func renderNode(b *strings.Builder, n SNode, ind string) {
 		kids()
 	case "list":
 		w("list %s {", n.Name)
-		w("  key \"%s\";", n.Key)
+		w("  key \"%s\";", strings.Join(n.KeyStmt(), " "))
 		for _, u := range n.Uniq {
 			ps := []string{}
 			for _, p := range u {
@@ -109,6 +110,14 @@ func renderNode(b *strings.Builder, n SNode, ind string) {
 		panic("dvm: unknown node kind " + n.Kind)
 	}
 	w("}")
+}
+
+// KeyStmt: the key names of a list in the order of its key statement.
+func (n SNode) KeyStmt() []string {
+	if len(n.Keys) > 0 {
+		return n.Keys
+	}
+	return []string{n.Key}
 }
 
 // RenderYang renders the schema records as the text of one YANG module.
